@@ -54,6 +54,13 @@ impl Prop for C02 {
                 out.feat("fault:bad_regex_capture");
             }
         }
+        if rng.chance(1, 14) {
+            // a clause that cannot be evaluated behind a false one: both modes evaluate every
+            // clause of an arm they reach, so both must fail
+            if add_failing_later_condition(rng, &mut case) {
+                out.feat("fault:failing_condition_after_false_one");
+            }
+        }
         let tree = parse_python(&case.source);
         let ti = TreeInfo::new(&tree);
         if let Some(a) = &ti.anomaly {
@@ -196,6 +203,46 @@ fn add_bad_regex_capture(rng: &mut Rng, case: &mut ProgCase) -> bool {
                 vec![GArm { regex: "([a-z])".into(), stmts: mk(2 + rng.below(3)), loc: Loc::default() }],
             )));
         }
+    }
+    case.prog.file.number();
+    case.text = crate::gen::print::print_house(&mut case.prog.file);
+    true
+}
+
+fn add_failing_later_condition(rng: &mut Rng, case: &mut ProgCase) -> bool {
+    use crate::gen::ast::*;
+    let nst = case.prog.file.stanzas().len();
+    if nst == 0 {
+        return false;
+    }
+    let si = rng.below(nst);
+    let cond = |kind: CondKind, expr: GExpr| GCond { kind, expr, loc: Loc::default() };
+    let falsy = |rng: &mut Rng| match rng.below(3) {
+        0 => cond(CondKind::Bool, GExpr::False),
+        1 => cond(CondKind::Bool, GExpr::call("eq", vec![GExpr::Int(1), GExpr::Int(2)])),
+        _ => cond(CondKind::Some, GExpr::Null),
+    };
+    let bad = |rng: &mut Rng| match rng.below(4) {
+        0 => cond(CondKind::Bool, GExpr::call("plus", vec![GExpr::Int(1), GExpr::Int(2)])),
+        1 => cond(CondKind::Bool, GExpr::call("not", vec![GExpr::str("yes")])),
+        2 => cond(CondKind::Bool, GExpr::str("text")),
+        _ => cond(CondKind::Bool, GExpr::call("no-such-function", vec![])),
+    };
+    let body = || vec![stmt(StmtKind::Node(GVar::u("fc_n")))];
+    let arms = if rng.chance(1, 2) {
+        vec![GIfArm { conds: vec![falsy(rng), bad(rng)], stmts: body(), loc: Loc::default() }]
+    } else {
+        vec![
+            GIfArm { conds: vec![falsy(rng)], stmts: body(), loc: Loc::default() },
+            GIfArm { conds: vec![falsy(rng), falsy(rng), bad(rng)], stmts: body(), loc: Loc::default() },
+            GIfArm { conds: vec![], stmts: body(), loc: Loc::default() },
+        ]
+    };
+    {
+        let mut stanzas = case.prog.file.stanzas_mut();
+        let st = &mut stanzas[si];
+        let pos = rng.below(st.stmts.len() + 1);
+        st.stmts.insert(pos, stmt(StmtKind::If(arms)));
     }
     case.prog.file.number();
     case.text = crate::gen::print::print_house(&mut case.prog.file);
